@@ -177,6 +177,7 @@ class CodecModel:
         """what load_fields reads for each wire type"""
         mod = self.mod
         lf = mod.func("load_fields")
+        register_helpers(mod)
         wt = wire_type_local(lf)
         for w in range(8):
             from .decode import exact_readers
@@ -203,8 +204,43 @@ class CodecModel:
         return next(iter(ints)) if len(ints) == 1 else None
 
 
+def _tag_split_via_helper(fn: ast.AST, want: str) -> Optional[str]:
+    """`number, wire_type = helper(tag)` where the module-level helper returns `(tag >> 3, tag & 7)`"""
+    import builtins as _b
+    mod = getattr(fn, "_vt_module", None)
+    for n in ast.walk(fn):
+        if isinstance(n, ast.Assign) and len(n.targets) == 1 and isinstance(n.targets[0], ast.Tuple) and isinstance(n.value, ast.Call) and isinstance(n.value.func, ast.Name):
+            helper = _HELPERS.get(n.value.func.id)
+            if helper is None:
+                continue
+            for r in ast.walk(helper):
+                if isinstance(r, ast.Return) and isinstance(r.value, ast.Tuple) and len(r.value.elts) == len(n.targets[0].elts):
+                    for tgt, e in zip(n.targets[0].elts, r.value.elts):
+                        if not isinstance(tgt, ast.Name) or not isinstance(e, ast.BinOp):
+                            continue
+                        if want == "wire" and isinstance(e.op, ast.BitAnd) and any(isinstance(x, ast.Constant) and x.value == 7 for x in (e.left, e.right)):
+                            return tgt.id
+                        if want == "number" and isinstance(e.op, ast.RShift) and isinstance(e.right, ast.Constant) and e.right.value == 3:
+                            return tgt.id
+    return None
+
+
+_HELPERS: Dict[str, ast.AST] = {}
+
+
+def register_helpers(mod) -> None:
+    """module-level functions, for resolving one-level helper indirections in the readers"""
+    _HELPERS.clear()
+    for st in mod.tree.body:
+        if isinstance(st, ast.FunctionDef):
+            _HELPERS[st.name] = st
+
+
 def wire_type_local(fn: ast.AST) -> str:
     """the local that holds `tag & 0x7`"""
+    via = _tag_split_via_helper(fn, "wire")
+    if via:
+        return via
     for n in ast.walk(fn):
         if isinstance(n, ast.Assign) and len(n.targets) == 1 and isinstance(n.targets[0], ast.Name) and isinstance(n.value, ast.BinOp) \
                 and isinstance(n.value.op, ast.BitAnd):
@@ -215,6 +251,9 @@ def wire_type_local(fn: ast.AST) -> str:
 
 
 def field_number_local(fn: ast.AST) -> str:
+    via = _tag_split_via_helper(fn, "number")
+    if via:
+        return via
     for n in ast.walk(fn):
         if isinstance(n, ast.Assign) and len(n.targets) == 1 and isinstance(n.targets[0], ast.Name) and isinstance(n.value, ast.BinOp) \
                 and isinstance(n.value.op, ast.RShift) and isinstance(n.value.right, ast.Constant) and n.value.right.value == 3:
@@ -637,6 +676,9 @@ def in_packed_loop(loops) -> bool:
 def load_roles(it: Sym, depth: int):
     # for parsed in load_fields(stream)
     if it[0] == "call" and dotted(it[1]) in ("load_fields", "parse_fields"):
+        return [N("$parsed")]
+    # fields = load_fields(stream) if <cond> else ()
+    if it[0] == "ife" and any(b[0] == "call" and dotted(b[1]) in ("load_fields", "parse_fields") for b in it[2:4]):
         return [N("$parsed")]
     return None
 
@@ -1100,6 +1142,60 @@ def rule_M6(ctx, rule: str = "M6") -> None:
             ctx.proved(rule, f"fixed-payload-length[{t}]", loc)
 
 
+def rule_T6b(ctx, rule: str = "T6") -> None:
+    """a module-level dict used as a cache: everything the cached value is built from appears in the key"""
+    mod = ctx.repo.mod(M_INIT)
+    module_dicts = set()
+    for st in mod.tree.body:
+        tgt = None
+        if isinstance(st, ast.AnnAssign) and isinstance(st.target, ast.Name) and st.value is not None:
+            tgt, val = st.target.id, st.value
+        elif isinstance(st, ast.Assign) and len(st.targets) == 1 and isinstance(st.targets[0], ast.Name):
+            tgt, val = st.targets[0].id, st.value
+        if tgt and (isinstance(val, ast.Dict) and not val.keys or (isinstance(val, ast.Call) and ast.unparse(val.func) in ("dict", "WeakValueDictionary", "weakref.WeakValueDictionary") and not val.args)):
+            module_dicts.add(tgt)
+    n = 0
+    bad = None
+    for q, fn in mod.functions():
+        local_names = {a.arg for a in fn.args.args + fn.args.kwonlyargs}
+        for st in ast.walk(fn):
+            if isinstance(st, (ast.Assign, ast.AnnAssign, ast.For, ast.comprehension)):
+                for t in ([st.target] if not isinstance(st, ast.Assign) else st.targets):
+                    for x in ast.walk(t):
+                        if isinstance(x, ast.Name):
+                            local_names.add(x.id)
+        for st in ast.walk(fn):
+            # CACHE[key] = value   (value either inline or a local assigned just before)
+            if isinstance(st, ast.Assign) and len(st.targets) == 1 and isinstance(st.targets[0], ast.Subscript) and isinstance(st.targets[0].value, ast.Name) \
+                    and st.targets[0].value.id in module_dicts:
+                n += 1
+                key = st.targets[0].slice
+                val = st.value
+                if isinstance(val, ast.Name):
+                    src = [a.value for a in ast.walk(fn) if isinstance(a, ast.Assign) and any(isinstance(t, ast.Name) and t.id == val.id for t in a.targets)
+                           and not (isinstance(a.value, ast.Call) and isinstance(a.value.func, ast.Attribute) and a.value.func.attr == "get")]
+                else:
+                    src = [val]
+                key_deps = {ast.unparse(x) for x in ast.walk(key) if isinstance(x, (ast.Name, ast.Attribute))}
+                val_deps = set()
+                for v in src:
+                    for x in ast.walk(v):
+                        if isinstance(x, ast.Attribute) and isinstance(x.value, ast.Name) and x.value.id in local_names:
+                            val_deps.add(ast.unparse(x))
+                        elif isinstance(x, ast.Name) and x.id in local_names and not any(isinstance(p_, ast.Attribute) and p_.value is x for v2 in src for p_ in ast.walk(v2)):
+                            val_deps.add(x.id)
+                missing = sorted(d for d in val_deps if d not in key_deps and d.split(".")[0] not in key_deps)
+                if missing:
+                    bad = (q, st, missing, ast.unparse(key))
+    if bad:
+        q, st, missing, key = bad
+        ctx.refuted(rule, "cache-key-covers-inputs", f"{q}:{','.join(missing)}", mod.loc(st),
+                    f"{q} caches a value in a module-level dict under the key {key}, but the cached value is also built from {missing}: two requests that agree on the key and differ "
+                    "there share one (wrong) entry - e.g. the entry class of map<string,sint64> reused for map<string,int64>", "two map fields with equal Python types and different proto types")
+    else:
+        ctx.proved(rule, "cache-key-covers-inputs", M_INIT, f"{n} module-level cache stores")
+
+
 def rule_T6(ctx, rule: str = "T6") -> None:
     """no value-keyed memoisation on the codec path: a cache keyed by == / hash conflates 0.0 with -0.0 and 1 with True and 1.0"""
     mod = ctx.repo.mod(M_INIT)
@@ -1127,3 +1223,4 @@ def rule_T6(ctx, rule: str = "T6") -> None:
                     "bytes(M(xs=[0.0])) then bytes(M(xs=[-0.0]))")
     else:
         ctx.proved(rule, "no-value-keyed-cache-on-codec-path", M_INIT, f"{len(cached)} memoised functions, none on the value path")
+    rule_T6b(ctx, rule)
